@@ -68,7 +68,61 @@ def load():
         missing = [k for k in list(mod.EXPECT) + list(mod.EXACT) if f"{m}.{k}" not in _CACHE]
         if missing:
             raise RuntimeError(f"regression cases without a translated function in {m}: {missing}")
+        if hasattr(mod, "HISTORY"):  # call histories on one object: one history program per (class, producer)
+            prog = T.Program(HERE, [f"cases.{m}"], "")
+            tr = T.Translator(prog)
+            tr.infer_plain_fields()
+            for h in T.histories(prog, tr, modules=[f"cases.{m}"]):
+                short = h["producer"][len(f"cases.{m}."):]
+                if short in mod.HISTORY:
+                    _CACHE[f"{m}.history:{short}"] = dict(h, short=short, module=mod, history=mod.HISTORY[short], prefix=f"cases.{m}.")
+            missing = [k for k in mod.HISTORY if f"{m}.history:{k}" not in _CACHE]
+            if missing:
+                raise RuntimeError(f"history regression cases without a history program in {m}: {missing}")
     return _CACHE
+
+
+def check_history(cid, case, driver):
+    """the history program of one (class, producer): what the analysis reports, and one real history with snapshots of
+    values AND slot identities of everything the caller passed"""
+    rep = driver.call("c19.history", np=case["np"], ctor=case["ctor"], methods=case["methods"])
+    labels = [f"{o[len(case['prefix']):]}({n})" for o, n in case["params"]]
+    got = sorted({labels[i] for i in rep["write"]}) if not rep["top"] else sorted(labels)
+    spec, fails = case["history"], []
+    if "expect" in spec and set(spec["expect"]) - set(got):
+        fails.append(f"UNSOUND {cid}: history analysis reports {got}, missing {sorted(set(spec['expect']) - set(got))}")
+    if "exact" in spec and got != sorted(spec["exact"]):
+        fails.append(f"IMPRECISE {cid}: history analysis reports {got}, expected exactly {sorted(spec['exact'])}")
+    ctor_args, calls = spec["run"]
+    mod, parts = case["module"], case["short"].split(".")
+    owned = []
+
+    def keep(owner, args):
+        for k, v in args.items():
+            owned.append((f"{owner}({k})", v, observe.snap(v), observe.inner_snapshot(v), observe.identity_snapshot(v)))
+    a = ctor_args()
+    keep(case["short"], a)
+    cls = getattr(mod, parts[0])
+    obj = cls(**a) if len(parts) == 1 else getattr(cls, parts[1])(**a)
+    for name, mk in calls:
+        a = mk()
+        definer = next(k.__name__ for k in type(obj).__mro__ if name.split(".")[0] in vars(k))  # ordinary dispatch
+        keep(f"{definer}.{name}", a)
+        try:
+            if name.endswith(".setter"):
+                (val,) = a.values()
+                setattr(obj, name.split(".")[0], val)
+            else:
+                getattr(obj, name)(**a)
+        except Exception:
+            pass
+    changed = sorted({lab for lab, v, deep, inner, ident in owned
+                      if observe.snap(v) != deep or observe.inner_changed(inner) or observe.identity_changed(ident)})
+    if "expect" in spec and not set(spec["expect"]) <= set(changed):
+        fails.append(f"CASE {cid}: expected effect not observed when the history is run: changed {changed}")
+    if not set(changed) <= set(got):
+        fails.append(f"UNSOUND {cid}: observed when the history is run but not predicted: {changed} (predicted {got})")
+    return fails
 
 
 def static_verdict(case, driver):
@@ -129,6 +183,10 @@ IR_CASES = {
     # accepted: bound on every path that continues
     "ir.ok_else_raises": (["seq", [["branch", ["bind", 1, ["fresh", 0]], ["seq", [["stop", "raise"]]]], ["write", 1]]], None),
     "ir.ok_loop_then_use": (["seq", [["loop", ["bind", 1, ["fresh", 0]]], ["write", 1]]], None),
+    # `kill`: the variables of a returned callee are unbound again
+    "ir.read_after_kill": (["seq", [["bind", 1, ["fresh", 0]], ["kill", [1]], ["write", 1]]], 1),
+    "ir.ok_rebound_after_kill": (["seq", [["bind", 1, ["fresh", 0]], ["kill", [1]], ["bind", 1, ["fresh", 1]], ["write", 1]]], None),
+    "ir.killed_in_loop_read_next_round": (["seq", [["bind", 1, ["fresh", 0]], ["loop", ["seq", [["write", 1], ["kill", [1]]]]]]], 1),
     "ir.ok_callee_return": (["seq", [["scope", [["bind", 1, ["fresh", 0]], ["stop", "ret"]]], ["write", 1]]], None),
 }
 
@@ -148,6 +206,8 @@ def check(cid, driver):
     if cid in IR_CASES:
         return check_ir(cid)
     case = load()[cid]
+    if "history" in case:
+        return check_history(cid, case, driver)
     w, r = static_verdict(case, driver)
     fails = []
     if case["expect"] is not None:
